@@ -33,3 +33,21 @@ def nol(txt, start=None, end=None):
         return txt.count('\r', start, end) + 1
     else:
         return txt.count('\n', start, end) + 1
+
+
+_re_implicit_exponent = re.compile(r'^([-+]?(?:[0-9]+\.?[0-9]*|\.[0-9]+))'
+                                   r'([-+][0-9]+)$')
+
+
+def mcnp_float(token):
+    """
+    Convert a real number written in any of the forms accepted by MCNP.
+
+    MCNP reads numbers like Fortran does: besides the usual forms, the exponent
+    may be introduced by ``d`` or ``D``, or just by its sign (``1.5-2``).
+    """
+    token = token.strip()
+    match = _re_implicit_exponent.match(token)
+    if match:
+        token = match.group(1) + 'e' + match.group(2)
+    return float(token.lower().replace('d', 'e'))
